@@ -16,7 +16,7 @@ PROPS = {
         level_note='Trusted: Verus+Z3; the permutation is uninterpreted in (ii)/(iii); gl_core contracts (C14) for from_noncanonical_u96 and +. NOT proved: the '
                    'identity between the fast partial rounds (FAST_PARTIAL_* matrices) and the textbook rounds (a computer-algebra identity on 12x12 matrices, '
                    'assumption A-C13-1), the full/partial round drivers and mds_partial_layer_init (poseidon.rs) -- listed as remainder. Keccak delegates to an external crate; the bounded harness checks that the Keccak permutation, hash and challenger see field elements, not '
-                   'their u64 representations (x vs x + p), and that hash_pad is hash_no_pad of the pad10*1 padding for every length 0..40 and keeps m, m||1, m||0, m||1||0 apart.',
+                   'their u64 representations (x vs x + p), that the permutation equals its definition (64-bit words of the hash onion, words >= p skipped) on 42 states incl. one whose digest has a word >= p, and that hash_pad is hash_no_pad of the pad10*1 padding for every length 0..40 and keeps m, m||1, m||0, m||1||0 apart.',
         remainder=['poseidon.rs: mds_partial_layer_init, partial_first_constant_layer, partial_rounds, full_rounds, poseidon drivers (bounded harness only: poseidon == poseidon_naive; linear layers vs a u128 oracle on magnitude classes and states steered to the carry boundaries of the 160-bit accumulator, incl. sums K*2^128 + delta with delta < 100)',
                    'A-C13-1: FAST_PARTIAL_* constants are the sparse factorisation of the MDS matrix', 'Keccak (external crate)', 'AVX2/NEON Poseidon (not compiled here)'],
     ),
@@ -58,7 +58,7 @@ PROPS = {
                    '(BaseSum, Exponentiation, RandomAccess, Reducing*, MulExtension, ArithmeticExtension, Poseidon*, CosetInterpolation, Lookup*) and '
                    'compute_filter / compute_filter_circuit (iterator products): bounded harness only (c07_gates: 23 gate instances incl. odd bases 3/5/7 x {standard, 37-routed-wire} configuration: extension vs '
                    'base-batch vs in-circuit evaluators incl. filtered with 1 and 2 selectors, declared constraint count, and for every wire a generator writes: the '
-                   'generated row satisfies the gate (also when the inputs are held in non-canonical representation) and the wire cannot be changed by +1, -1, 12345 without violating a constraint; c07_gate_ids_and_circuit_evaluation: gate ids distinguish every parameterisation, and whole circuits with lookup tables evaluate identically natively and in-circuit; thorough tier: the same battery in an AVX2 build, where the base-batch evaluators run 4 lanes wide).',
+                   'generated row satisfies the gate (also when the inputs are held in non-canonical representation, and for ExponentiationGate with the 66 exponent bits of the standard configuration all set under a random base) and the wire cannot be changed by +1, -1, 12345 without violating a constraint; c07_gate_ids_and_circuit_evaluation: gate ids distinguish every parameterisation, and whole circuits with lookup tables evaluate identically natively and in-circuit; thorough tier: the same battery in an AVX2 build, where the base-batch evaluators run 4 lanes wide).',
         remainder=['all gates other than ArithmeticGate, ConstantGate and ExponentiationGate (bounded harness only)', 'generators run_once (closures over the witness)', 'compute_filter / compute_filter_circuit (assumed to denote the same function)'],
     ),
     'C09': dict(
@@ -80,7 +80,7 @@ PROPS = {
                    'split into 1..8 chunks incl. the non-powers of two): honest traces proved and accepted; corrupted first / '
                    'interior / last rows, false public inputs (also pairs of errors that would cancel under a shared weight) and altered proof elements never accepted; '
                    'a harness-side cheating prover that ignores the constraints (quotients fitted to a guessed zeta with the commitment withheld / not absorbed / absorbed '
-                   'after the guess; all-zero quotients with their openings withheld) is never accepted (found F9); the STARK transcript battery (c04_stark_transcript) is part of this check.',
+                   'after the guess; all-zero quotients with their openings withheld) is never accepted (found F9); the STARK transcript battery (c04_stark_transcript, which also requires the stand-alone proof to verify under the transcript that absorbs the trace cap and not under the one without it) and the malformed-proof battery (c18_stark_malformed) are part of this check.',
         remainder=['starky verifier / prover / vanishing polynomial (bounded harness only)', 'batch_multiplicative_inverse (assumed contract)', 'STARK soundness argument'],
     ),
     'C15': dict(
@@ -131,7 +131,7 @@ PROPS = {
         level_note='Trusted: Verus+Z3; the sponge permutation is uninterpreted (that altering an absorbed element changes later challenges is the '
                    'random-oracle reading of the permutation, outside the family); FriReductionStrategy::serialize, to_fri_openings, Vec::drain/iter::repeat '
                    'adaptors assumed. Not covered: the PROVER transcript in prove_with_partition_witness (rayon/timing macros; agreement with the verifier '
-                   'is what the positive tests establish), RecursiveChallenger. STARK get_challenges: bounded harness only (c04_stark_transcript: 25+ message / parameter alterations incl. the optional lookup / cross-table-lookup openings and 10 reduction strategies, each must change every later challenge group and no earlier one).',
+                   'is what the positive tests establish), RecursiveChallenger. STARK get_challenges: bounded harness only (c04_stark_transcript: 25+ message / parameter alterations incl. the optional lookup / cross-table-lookup openings, the auxiliary cap with drawn and with caller-supplied lookup challenges, and 10 reduction strategies, each must change every later challenge group and no earlier one). fri_challenges called directly with padded transcript lengths / step counts (None, 0, shorter, equal, longer): every limb of every final-polynomial coefficient and every commit-phase cap element must reach the challenges drawn after it (c04_transcript_dependence).',
         remainder=['prover-side transcript (plonk/prover.rs, fri/prover.rs)', 'RecursiveChallenger and in-circuit get_challenges', 'starky get_challenges (bounded harness only)'],
     ),
     'C05': dict(
@@ -148,7 +148,7 @@ PROPS = {
         level_note='Trusted: Verus+Z3; compute_evaluation, fri_combine_initial, PolynomialCoeffs::eval, flatten, reverse_bits, from_os_and_alpha as '
                    'uninterpreted functions; FriParams from common data (params_ok). FRI soundness over these checks is outside the family. '
                    'Prover side not covered; batch_fri_verifier_query_round / batch_fri_verify_initial_proof (scan closures) bounded harness only (7 batch plans incl. two-coefficient polynomials entering at the last layer); '
-                   'c05_fri_structured_openings: stand-alone opening proofs over constant / zero / linear / random polynomials under 6 opening plans x 4 parameter sets: true openings accepted, every false opening rejected.',
+                   'c05_fri_structured_openings: stand-alone opening proofs over constant / zero / linear / random polynomials under 6 opening plans x 4 parameter sets: true openings accepted, every false opening rejected. c05_batch_skipped_layer: forgers for an instance whose domain the folding schedule never reaches (two and three instances). The field-crate battery c15_polynomial (interpolation incl. zero values, used by compute_evaluation) is part of this check.',
         remainder=['FRI soundness theorem (proximity gaps) over the checked conjunction', 'prover side: fri_committed_trees, fri_proof_of_work, prove_openings',
                    'batch FRI per-round function (batch_fri_verifier_query_round) and batch prover', 'reduction_arity_bits strategies'],
     ),
@@ -211,7 +211,7 @@ PROPS = {
         level_note='Trusted: Verus+Z3; parameters from the common data satisfy params_ok/instances_ok; unverified callees (T10) assumed panic-free under '
                    'their stated preconditions. Byte decoders, compressed proofs and the STARK verifier after shape validation are covered by the bounded stand-in only '
                    '(c18_c17_decoders: truncations / bit flips / 0xff runs of encoded proofs and circuit data; c18_compressed_malformed: open finding F5; '
-                   'c18_stark_malformed: 38 surgeries x 3 trace sizes; c03_c18_surgery_*: every proof component altered, truncated, extended under 3 configurations).',
+                   'c18_stark_malformed: 42 surgeries (incl. Some(empty vector) for every optional opening) x 3 configurations x trace sizes, and final-polynomial / cap / round surgeries on proofs made for the FRI parameters of a recursive verifier (verifier_circuit_fri_params = Some, degrees 30, 14, 10, 6); c03_c18_surgery_*: every proof component altered, truncated, extended under 3 configurations).',
         remainder=['verify_compressed / decompress (HashMap keyed by proof data)', 'byte decoders (util/serialization)', 'starky verifier after validate_proof_shape (get_challenges, verify_stark_proof_with_challenges: bounded harness only)'],
     ),
     'C02': dict(
